@@ -160,7 +160,7 @@ class Varint(Suite):
     name = "varint"
     go_cmd = "c53"
     coq_imports = "From GoGit Require Import Model.C53Varint."
-    quick_n = 200
+    quick_n = 170
     thorough_n = 2000
     coq_chunk = 70
 
@@ -231,7 +231,7 @@ class Varint(Suite):
 class Framing(C34.Pkt):
     """the malformed pkt-line buckets of C34 again, compared with the model whose totality is proved"""
     name = "framing"
-    quick_n = 150
+    quick_n = 120
     thorough_n = 1200
 
     def gen(self, rng, n, tier):
@@ -254,7 +254,7 @@ class Framing(C34.Pkt):
 class Messages(C35.Msgs):
     """malformed packp streams (derived from go-git's own encodings) against the model"""
     name = "messages"
-    quick_n = 170
+    quick_n = 140
     thorough_n = 1500
 
     def gen(self, rng, n, tier):
